@@ -1,6 +1,6 @@
 SPECIFICATION Spec
 CONSTANTS
-  Times <- TimesCases
+  Times <- TimesCasesThorough
   T0s <- T0sOne
   Dims = {3}
   Kinds <- AllKinds
@@ -11,6 +11,8 @@ CONSTANTS
   MaxAt = 2
   ExpmDopModes <- Pinned
   Solve2Modes <- Solve2OK
+  Progbars <- PbOff
+  Progbar0Modes <- PbOK
   PrintCases = TRUE
 INVARIANT CaseOut
 CHECK_DEADLOCK FALSE
